@@ -185,6 +185,19 @@ pub fn draw_line<T: Copy>(mut image: NdTensorViewMut<T, 2>, line: Line, value: T
         let img_height: i32 = image.rows().try_into().unwrap();
         let img_width: i32 = image.cols().try_into().unwrap();
 
+        // A line whose bounding box does not intersect the image has no
+        // visible points. Clamping its endpoints would draw it along the
+        // edge of the image (or index into an empty image).
+        if img_height == 0
+            || img_width == 0
+            || line.start.y.max(line.end.y) < 0
+            || line.start.y.min(line.end.y) >= img_height
+            || line.start.x.max(line.end.x) < 0
+            || line.start.x.min(line.end.x) >= img_width
+        {
+            return;
+        }
+
         let start = clamp_to_bounds(line.start, img_height, img_width);
         let end = clamp_to_bounds(line.end, img_height, img_width);
         let clamped = Line::from_endpoints(start, end);
